@@ -1,7 +1,8 @@
 (* Specification for the root registry, from the property text: the roots registered for
    frame f in the current epoch, computed from the history alone (no table, no cache, no
    encoding).  AddRoot(selfParentFrame, event) registers the event as a root of every frame
-   in (selfParentFrame, event.Frame]; an epoch switch forgets everything. *)
+   in (selfParentFrame, event.Frame]; an epoch switch forgets everything; a restart
+   (new Store over the same databases) changes nothing. *)
 From Coq Require Import NArith List Bool.
 From LV Require Import model.Roots.
 Import ListNotations.
@@ -15,8 +16,18 @@ Fixpoint registered_from (acc : list root) (ops : list rop) : list root :=
       registered_from (acc ++ map (fun f => mkRoot f creator id) (frames_between spf frame)) rest
   | RGet _ :: rest => registered_from acc rest
   | RReset :: rest => registered_from [] rest
+  | RRestart :: rest => registered_from acc rest
   end.
 Definition registered_all (ops : list rop) : list root := registered_from [] ops.
+
+(* the operations of the current epoch: everything after the last epoch switch *)
+Fixpoint current_epoch_from (acc : list rop) (ops : list rop) : list rop :=
+  match ops with
+  | [] => acc
+  | RReset :: rest => current_epoch_from [] rest
+  | o :: rest => current_epoch_from (acc ++ [o]) rest
+  end.
+Definition current_epoch (ops : list rop) : list rop := current_epoch_from [] ops.
 
 Definition ids_eqb (a b : list N) : bool := LV.lib.Bytes.bytes_eqb a b.
 Definition root_eqb (a b : root) : bool :=
